@@ -3,9 +3,9 @@ from cvxopt.modeling import variable, op
 x = variable(3, 'x')
 lp = op(x[0] + x[1], [x[:2] >= 1])          # x[2] is unused: a natural model
 print(lp)
-lp.tofile('/tmp/wt5h/C14/hunt/tmp/r2.mps')
+lp.tofile('/var/tmp/fz/r2.mps')
 lp2 = op()
 try:
-    lp2.fromfile('/tmp/wt5h/C14/hunt/tmp/r2.mps'); print(lp2)
+    lp2.fromfile('/var/tmp/fz/r2.mps'); print(lp2)
 except Exception as e:
     print('fromfile raised', type(e).__name__, e)
